@@ -6,7 +6,11 @@ import (
 )
 
 // Jobs returns the configurations and deviation bounds explored per tier.
-func Jobs(run *ev.Run) []Job {
+func Jobs(run *ev.Run, prop string) []Job {
+	jfD := 2 // C07 quick: Joint-Feldman with 2 deviations (End-time disqualification needs share+answer faults)
+	if prop == "C08" {
+		jfD = 1
+	}
 	s := run.Seed
 	q := func(p dkgsys.Protocol, n, t, dealer int, byz []int, d int) Job {
 		return Job{Cfg: dkgsys.Config{Proto: p, N: n, T: t, Dealer: dealer, Byz: byz, Seed: s}, D: d}
@@ -18,7 +22,9 @@ func Jobs(run *ev.Run) []Job {
 			q(dkgsys.FVSSQ, 3, 1, 1, []int{1}, 1), // dealer at another index
 			q(dkgsys.FVSSQ, 4, 1, 0, []int{0}, 1),
 			q(dkgsys.FVSSQ, 4, 2, 0, []int{0}, 1),
-			q(dkgsys.JF, 3, 1, 0, []int{0}, 1),
+			q(dkgsys.JF, 3, 1, 0, []int{0}, jfD),
+			q(dkgsys.JF, 3, 1, 0, []int{1}, 1),
+			q(dkgsys.JF, 3, 1, 0, []int{2}, 1),
 		}
 	}
 	return []Job{
